@@ -274,6 +274,29 @@ class Prog:
                 return fl
         return None
 
+    def const_named(self, name):
+        """value of an enum constant / object-like macro as the compiler folded it somewhere in the library"""
+        if not hasattr(self, '_consts'):
+            c = {}
+            for f in self.funcs.values():
+                for b in f['blocks']:
+                    items = [ev['e'] for ev in b['elems']]
+                    if b.get('term') and b['term'].get('cond') is not None:
+                        items.append(b['term']['cond'])
+                    lab = b.get('label')
+                    if lab and lab.get('k') == 'case' and (lab.get('en') or lab.get('mn')):
+                        c.setdefault(lab.get('en') or lab.get('mn'), lab['lo'])
+                    for it in items:
+                        for y in walk(it):
+                            if isinstance(y, dict) and y.get('k') == 'int':
+                                for kk in ('en', 'mn'):
+                                    if y.get(kk):
+                                        c.setdefault(y[kk], const_int(y))
+            self._consts = c
+        if name not in self._consts:
+            raise AnalysisBroken('constant %s is not used anywhere in the library' % name)
+        return self._consts[name]
+
     # -------------------------------------------------------------- indirect calls
     def fp_stores(self):
         """field/variable name -> set of function names stored into it anywhere"""
